@@ -26,7 +26,7 @@ TIMEOUT = {"quick": 900, "thorough": 3600}
 SCTP_CLONES = {"quick": ['rand3', 'enum0'], "thorough": ['rand10', 'rand11', 'enum0', 'concurrent3']}
 FAULTS = ["none", "close", "reset", "dpr", "reconnect", "second_conn", "second_conn_before", "second_conn_then_close",
           "second_conn_then_dpr",
-          "dpr_then_late_dwa", "second_conn_before_then_dpr", "dpr_when_idle_timer_due", "foreign_same_ids"]
+          "dpr_then_late_dwa", "second_conn_before_then_dpr", "dpr_when_idle_timer_due", "foreign_same_ids", "dpr_then_late_app"]
 # how a request gets its FIRST answer: through Application.send_answer (what the statement is about); "direct" - the
 # application hands the answer to Node.send_message with the connection itself (documented for that purpose);
 # "raise" - the handler fails after putting the request aside and the node answers 5012 for it.  In the last two
@@ -160,6 +160,15 @@ class Case:
             h.settle()
             p.send(M.dpr(name, self.REALM, hbh=900, e2e=900))
             p.dpr_exchanged = True
+        elif f == "dpr_then_late_app":
+            # the requester has left with a DPR (its socket stays open); then an application is registered for that
+            # peer on the running node: the connection stays what it is - no longer ready
+            p.send(M.dpr(name, self.REALM, hbh=900, e2e=900))
+            p.dpr_exchanged = True
+            h.settle()
+            if "late" not in self.w.apps:
+                self.w.late_app("late", 4, [name], behaviour="defer")
+                self.run.cov["application_added_after_dpr"] = self.run.cov.get("application_added_after_dpr", 0) + 1
         elif f == "foreign_same_ids":
             # another connection happens to use the identifiers of a request pending on the target's connection
             # (identifiers are unique per connection only): its watchdog request is answered, nothing else changes
